@@ -1,0 +1,7 @@
+// +build !verif
+
+package cmd
+
+// verifPoint marks a place where the verification build (tag verif)
+// can pause the calling goroutine. It does nothing in normal builds.
+func verifPoint(string) {}
